@@ -513,6 +513,16 @@ class ESME:
                         if self.rate_limiter:
                             await self.rate_limiter.limit()
                         await self._send_data(message)
+                except CancelledError:
+                    # The session is being torn down while this message is in progress:
+                    # it was taken from the broker, so the user application must learn its fate
+                    if isinstance(smpp_message, SubmitSm):
+                        await self.hook.send_error(
+                            smpp_message,
+                            ConnectionError('Session ended before the message was sent'),
+                            self.client_id,
+                        )
+                    raise
                 except Exception as err:  # pylint: disable=broad-except
                     # We must intercept this exception to inform user application about failure
                     if self._logger.isEnabledFor(ERROR):
